@@ -16,6 +16,7 @@ pub mod p_negot;
 pub mod p_sched;
 pub mod p_serve;
 pub mod p_stream;
+pub mod segbuf;
 pub mod util;
 pub mod fuzzdec;
 
